@@ -511,3 +511,60 @@ Section Reg.
     (hash (enc e) = hash (enc e') -> enc e = enc e') -> enc e = enc e'.
   Proof. intros HK L Hinj. apply Hinj. exact (HK _ _ L). Qed.
 End Reg.
+
+(* ================================================================ registration in dependency order
+   (the rule of the Tezos protocol: an expression may only mention constants registered before
+   it, under a fresh hash) gives an acyclic registry, and the budget of [resolve_top] suffices *)
+
+Fixpoint ordered (reg : registry) : Prop :=
+  match reg with
+  | [] => True
+  | (k, e) :: r =>
+      lookup k r = None /\ (forall h, In h (refs e) -> lookup h r <> None) /\ ordered r
+  end.
+
+(* position from the oldest entry *)
+Fixpoint pos_rank (h : bytes) (reg : registry) : nat :=
+  match reg with
+  | [] => 0
+  | (k, _) :: r => if bytes_eqb k h then length r else pos_rank h r
+  end.
+
+Lemma pos_rank_lt h : forall reg, lookup h reg <> None -> pos_rank h reg < length reg.
+Proof.
+  induction reg as [|[k e] r IH]; intro H; [cbn in H; congruence|].
+  cbn [lookup pos_rank length] in *. destruct (bytes_eqb k h); [lia|]. specialize (IH H). lia.
+Qed.
+
+Lemma ordered_refs_registered : forall reg, ordered reg ->
+  forall h e, lookup h reg = Some e -> forall h', In h' (refs e) -> lookup h' reg <> None.
+Proof.
+  induction reg as [|[k e0] r IH]; intros HO h e L h' Hin; [discriminate|].
+  destruct HO as (Hfresh & Hrefs & HO). cbn [lookup] in *.
+  assert (Hr : lookup h' r <> None).
+  { destruct (bytes_eqb k h) eqn:E.
+    - injection L as <-. apply Hrefs, Hin.
+    - eapply IH; eassumption. }
+  destruct (bytes_eqb k h'); [discriminate|exact Hr].
+Qed.
+
+Lemma ordered_ranked : forall reg, ordered reg -> ranked reg (fun h => pos_rank h reg).
+Proof.
+  induction reg as [|[k e0] r IH]; intros HO h e L h' Hin Hreg; [discriminate|].
+  pose proof HO as HO'. destruct HO as (Hfresh & Hrefs & HO). cbn [lookup pos_rank] in *.
+  assert (Hk' : forall x, lookup x r <> None -> bytes_eqb k x = false).
+  { intros x Hx. destruct (bytes_eqb k x) eqn:E; [|reflexivity].
+    apply bytes_eqb_spec in E. subst. congruence. }
+  destruct (bytes_eqb k h) eqn:E.
+  - injection L as <-. pose proof (Hrefs h' Hin) as Hr. rewrite (Hk' h' Hr).
+    apply pos_rank_lt, Hr.
+  - assert (Hr : lookup h' r <> None) by (eapply ordered_refs_registered; eassumption).
+    rewrite (Hk' h' Hr). apply (IH HO h e L h' Hin Hr).
+Qed.
+
+Lemma resolve_top_ordered reg n : ordered reg -> resolve_top reg n <> RFuel.
+Proof.
+  intro HO. unfold resolve_top.
+  apply (resolve_no_fuel reg _ (ordered_ranked reg HO)). intros h _ Hreg.
+  apply pos_rank_lt, Hreg.
+Qed.
